@@ -1,9 +1,11 @@
 (* C01 front-end, CUE: generic helpers and the leaf lemmas (numbers, bounds, lengths, constants, enums) of
-   parse_cue_preserves_acceptance_partial (Proofs/FrontEndCueProofs.v).  Self-contained: the helpers shared with the
-   JSON Schema proof (Proofs/FrontEndAccept.v, Proofs/FrontEndLemmas.v) are copied under the prefix cue_. *)
+   parse_cue_preserves_acceptance_partial (Proofs/FrontEndCueProofs.v).  The list / lookup helpers shared with the
+   JSON Schema proof are copied under the prefix cue_; the general decimal lemmas are taken from Proofs/FrontEndAccept.v
+   (bounds_agree_val, json_eq_num_val: no restriction on bounds / constants). *)
 From Coq Require Import List String ZArith Bool Ascii Arith Lia.
 From Cog Require Import Model.IR Model.Json Model.GoSemBase Model.GoSemValidate Model.Src Model.FrontEnd Model.FrontEndSpec
   Model.FrontEndCue Model.FrontEndSpecCue Model.FrontEndSpecCue2.
+From Cog Require Import Proofs.FrontEndLemmas Proofs.FrontEndAccept.
 Import ListNotations.
 Local Open Scope list_scope.
 Local Open Scope string_scope.
@@ -271,58 +273,10 @@ Proof.
     cbn [andb int_range]; intro KR; inversion KR; subst lo hi; clear KR; cue_int_case.
 Qed.
 
-(* ---------- float bounds: printing then parsing a small bound gives the bound back ---------- *)
-Definition cue_rt_ok (m e : Z) : bool :=
-  match parse_dec (dec_string m e) with Some (a, b) => (Z.eqb a m && Z.eqb b e)%bool | None => false end.
-Definition cue_zrange (lo : Z) (cnt : nat) : list Z := map (fun i => (lo + Z.of_nat i)%Z) (seq 0 cnt).
-Lemma cue_zrange_in lo cnt z : (lo <= z < lo + Z.of_nat cnt)%Z -> In z (cue_zrange lo cnt).
-Proof.
-  intro H. unfold cue_zrange. apply in_map_iff. exists (Z.to_nat (z - lo)). split.
-  - rewrite Z2Nat.id by lia. lia.
-  - apply in_seq. lia.
-Qed.
-Lemma cue_rt_all :
-  forallb (fun m => forallb (fun e => cue_rt_ok m e) (cue_zrange (-3) 4)) (cue_zrange (-10000) (Z.to_nat 20001)) = true.
-Proof. vm_compute. reflexivity. Qed.
-Lemma cue_roundtrip_small p : bound_small p = true -> parse_dec (dec_string (fst p) (snd p)) = Some p.
-Proof.
-  destruct p as [m e]. unfold bound_small. cbn [fst snd]. intro H.
-  apply andb_true_iff in H. destruct H as [H H4]. apply andb_true_iff in H. destruct H as [H H3].
-  apply andb_true_iff in H. destruct H as [H1 H2].
-  apply Z.leb_le in H1, H2, H3, H4.
-  pose proof cue_rt_all as A. rewrite forallb_forall in A.
-  assert (Im : In m (cue_zrange (-10000) (Z.to_nat 20001))) by (apply cue_zrange_in; lia).
-  specialize (A m Im). rewrite forallb_forall in A.
-  assert (Ie : In e (cue_zrange (-3) 4)) by (apply cue_zrange_in; lia).
-  specialize (A e Ie). unfold cue_rt_ok in A.
-  destruct (parse_dec (dec_string m e)) as [[a b]|]; [|discriminate].
-  apply andb_true_iff in A. destruct A as [A1 A2]. apply Z.eqb_eq in A1, A2. subst. reflexivity.
-Qed.
-
-Lemma cue_cstr_num op a b m e : parse_dec (dec_string a b) = Some (a, b) ->
-  cstr_holds_json (cstr op (dflo a b)) (JNum m e) =
-  (let c := dec_compare (m, e) (a, b) in
-   if seqb op ">=" then match c with Lt => false | _ => true end
-   else if seqb op ">" then match c with Gt => true | _ => false end
-   else if seqb op "<=" then match c with Gt => false | _ => true end
-   else if seqb op "<" then match c with Lt => true | _ => false end
-   else false).
-Proof. intro H. unfold cstr_holds_json, cstr, dflo. cbn [c_args c_op dyn_num]. rewrite H. reflexivity. Qed.
-
+(* ---------- float bounds: Proofs/FrontEndAccept.v bounds_agree_val (no restriction on the bounds) ---------- *)
 Lemma cue_bounds_agree ge gt le lt m e :
-  obound_small ge = true -> obound_small gt = true -> obound_small le = true -> obound_small lt = true ->
   forallb (fun c => cstr_holds_json c (JNum m e)) (js_bounds ge gt le lt) = bounds_ok ge gt le lt (m, e).
-Proof.
-  intros H1 H2 H3 H4. unfold js_bounds, bounds_ok, opt_ok, opt_list.
-  destruct ge as [[a1 b1]|], gt as [[a2 b2]|], le as [[a3 b3]|], lt as [[a4 b4]|];
-    cbn [obound_small] in *; cbn [app forallb fst snd];
-    try (rewrite (cue_cstr_num ">=" a1 b1) by (apply (cue_roundtrip_small (a1, b1)); assumption));
-    try (rewrite (cue_cstr_num ">" a2 b2) by (apply (cue_roundtrip_small (a2, b2)); assumption));
-    try (rewrite (cue_cstr_num "<=" a3 b3) by (apply (cue_roundtrip_small (a3, b3)); assumption));
-    try (rewrite (cue_cstr_num "<" a4 b4) by (apply (cue_roundtrip_small (a4, b4)); assumption));
-    cbv zeta; cbn [seqb String.eqb Ascii.eqb Bool.eqb];
-    repeat match goal with |- context [dec_compare ?x ?y] => destruct (dec_compare x y) end; reflexivity.
-Qed.
+Proof. apply bounds_agree_val. Qed.
 
 (* ---------- string lengths ---------- *)
 Lemma cue_lengths_agree mn mx s :
@@ -355,12 +309,12 @@ Proof.
   unfold num_eqb. destruct (num_norm m 0), (num_norm m0 e). reflexivity.
 Qed.
 
-Lemma cue_const_agree ctx v j : json_scalar_const v = true -> const_plain v = true ->
+Lemma cue_const_agree ctx v j : json_scalar_const v = true ->
   json_eq v j = cue_alt_check ctx j (js_const v).
 Proof.
-  destruct v; simpl; intros H1 H2; try discriminate; rewrite andb_true_r.
+  destruct v; simpl; intros H1; try discriminate; rewrite andb_true_r.
   - rewrite cue_json_eq_bool. reflexivity.
-  - apply Z.eqb_eq in H2. subst e. rewrite (cue_json_eq_num m j "int64"). reflexivity.
+  - apply Z.leb_le in H1. rewrite (json_eq_num_val m e j "int64" H1). reflexivity.
   - rewrite cue_json_eq_str. reflexivity.
 Qed.
 
@@ -375,17 +329,16 @@ Proof.
   destruct X as [X|X]; rewrite forallb_forall in X; specialize (X v I); destruct v; simpl in *; auto; discriminate.
 Qed.
 
-Lemma cue_enum_agree ctx vals j : enum_ok vals = true -> forallb const_plain vals = true ->
+Lemma cue_enum_agree ctx vals j : enum_ok vals = true ->
   in_list j vals = cue_alt_check ctx j (cue_enum vals).
 Proof.
-  intros H1 H2. unfold in_list.
+  intros H1. unfold in_list.
   destruct vals as [|v0 r]; [discriminate|].
   destruct v0 as [|b0|m0 e0|s0|l0|ms0]; try discriminate.
   - (* integer enum *)
     unfold cue_enum. cbn [cue_alt_check]. rewrite cue_existsb_map. apply cue_existsb_ext_in. intros v I.
-    unfold enum_ok in H1. rewrite forallb_forall in H1, H2. specialize (H1 v I). specialize (H2 v I).
-    destruct v; try discriminate. cbn [ev_value]. simpl in H2. apply Z.eqb_eq in H2. subst e.
-    apply cue_json_eq_num.
+    unfold enum_ok in H1. rewrite forallb_forall in H1. specialize (H1 v I).
+    destruct v; try discriminate. cbn [ev_value]. apply Z.leb_le in H1. apply json_eq_num_val. exact H1.
   - (* string enum *)
     unfold cue_enum. cbn [cue_alt_check]. rewrite cue_existsb_map. apply cue_existsb_ext_in. intros v I.
     unfold enum_ok in H1. rewrite forallb_forall in H1. specialize (H1 v I).
